@@ -1973,7 +1973,8 @@ Section CreateVerify.
   Let ix := basep ++ EXT_PAR2.
   Let fs := apply_writes outs fs0.
   Let pat (q : list N) : bool :=
-    Nat.leb (length (basep ++ [DOT]) + length EXT_PAR2) (length q) && starts_with q (basep ++ [DOT]) && ends_with q EXT_PAR2.
+    Nat.leb (length (basep ++ [DOT]) + length EXT_PAR2) (length q) && starts_with q (basep ++ [DOT]) && ends_with q EXT_PAR2
+    && no_slash (skipn (length (basep ++ [DOT])) q).
   Hypothesis Hinputs : forall name data, In (name, data) (combine names datas) ->
     fs_lookup fs0 (file_path ix name) = Some data.
   Hypothesis Hdisj : forall name, In name names -> ~ In (file_path ix name) (map fst outs).
@@ -2009,7 +2010,7 @@ Section CreateVerify.
 
   Lemma pat_vol i c : pat (volpath i c) = true.
   Proof.
-    unfold pat, volpath. apply andb_true_iff. split; [apply andb_true_iff; split|].
+    unfold pat, volpath. apply andb_true_iff. split; [apply andb_true_iff; split; [apply andb_true_iff; split|]|].
     - apply Nat.leb_le. rewrite !app_length. cbn [length]. lia.
     - unfold starts_with.
       replace (basep ++ [46; 118; 111; 108]%N ++ dec2 (N.of_nat i) ++ [43%N] ++ dec2 (N.of_nat c) ++ EXT_PAR2)
@@ -2023,12 +2024,13 @@ Section CreateVerify.
       rewrite app_length.
       match goal with |- context [skipn (?a + ?b - ?b)] => replace (a + b - b) with a by lia end.
       rewrite (skipn_app_len _ _ _ eq_refl). apply str_eqb_refl.
+    - apply no_slash_vol_path.
   Qed.
 
   Lemma pat_ix : pat ix = false.
   Proof.
     unfold pat, ix. rewrite !app_length. cbn [length].
-    match goal with |- Nat.leb ?a ?b && _ && _ = false =>
+    match goal with |- Nat.leb ?a ?b && _ && _ && _ = false =>
       assert (E : Nat.leb a b = false) by (apply Nat.leb_gt; lia); rewrite E end.
     reflexivity.
   Qed.
@@ -2078,7 +2080,8 @@ Section CreateVerify.
       exists data. rewrite Hf1. unfold d. cbn [d_index dinfo_of di_name data_file_info fi_desc fd_name].
       apply Lin. exact Hnd'. }
     set (paths := sort_paths (filter (fun q => Nat.leb (length (strip_ext ix ++ [DOT]) + length (ext ix)) (length q)
-                                               && starts_with q (strip_ext ix ++ [DOT]) && ends_with q (ext ix))
+                                               && starts_with q (strip_ext ix ++ [DOT]) && ends_with q (ext ix)
+                                               && no_slash (skipn (length (strip_ext ix ++ [DOT])) q))
                                      (map fst (io_fs st2)))).
     assert (IL : exists st3, io_list (strip_ext ix ++ [DOT]) (ext ix) st2 = (Ok paths, st3) /\
                              io_sched st3 = [] /\ io_fs st3 = fs).
@@ -2165,9 +2168,11 @@ End CreateVerify.
 
 Print Assumptions create_then_verify_section.
 
-(* the paths LoadParityData looks at: <base>.*.par2 *)
+(* the paths LoadParityData looks at: <base>.*.par2 with no separator in the part matched by the star, that is the
+   files with such a name in the directory of the index file itself (not below a sub-directory <base>.x/) *)
 Definition vol_pattern (base q : list N) : bool :=
-  Nat.leb (length (base ++ [DOT]) + length EXT_PAR2) (length q) && starts_with q (base ++ [DOT]) && ends_with q EXT_PAR2.
+  Nat.leb (length (base ++ [DOT]) + length EXT_PAR2) (length q) && starts_with q (base ++ [DOT]) && ends_with q EXT_PAR2
+  && no_slash (skipn (length (base ++ [DOT])) q).
 
 Section Par2CleanStretch.
   Variable md5 : bytes -> bytes.
